@@ -284,7 +284,10 @@ func ruleC11Strict(e *Env) {
 	}
 	fixed := func(x, y pred.Val) (int, bool, bool) {
 		xs, ys := x.String(), y.String()
-		if strings.Contains(xs, "New(") && strings.Contains(xs, "Date#") || strings.Contains(ys, "New(") && strings.Contains(ys, "Date#") {
+		comp := func(s string) bool { // a component of the constructed date: through Date()/Year()… or read off its fields
+			return strings.Contains(s, "New(") && (strings.Contains(s, "Date#") || strings.Contains(s, "field#"))
+		}
+		if comp(xs) || comp(ys) {
 			return 0, true, true // calendar round-trip guard passes
 		}
 		return 0, false, false
